@@ -1,1 +1,43 @@
-From TB Require Import Base.
+(** C12 - export files sit at the documented location with exactly the declared length.  Statements only. *)
+From TB Require Import Base Decimal BencodeModel TorrentModel TorrentProofs PathModel FsModel SolverModel FinderModel RunModel
+                       SolverProofs RunProofs FsProofs FaultProofs PreludeProofs TableProofs Generated GeneratedObligations.
+Local Open Scope N_scope.
+
+Theorem C12_single_file_location export ih name :
+  target_single export ih name = export ++ [hexdigest ih; [68;97;116;97]; name] /\
+  starts_with (export ++ [hexdigest ih; [68;97;116;97]]) (target_single export ih name) = true.
+Proof. exact (target_single_shape export ih name). Qed.
+
+Theorem C12_multi_file_location export ih name fpath :
+  target_multi export ih name fpath = export ++ [hexdigest ih; [68;97;116;97]; name] ++ fpath /\
+  starts_with (export ++ [hexdigest ih; [68;97;116;97]; name]) (target_multi export ih name fpath) = true.
+Proof. exact (target_multi_shape export ih name fpath). Qed.
+
+(** The directory name has 40 lowercase hexadecimal digits for a 20-byte hash. *)
+Theorem C12_dir_name_length ih : length ih = 20%nat -> length (hexdigest ih) = 40%nat.
+Proof. intros Hl. rewrite hex_length, Hl. reflexivity. Qed.
+
+(** What a piece may create or write: only export images of its non-padding segments; [SetLen]
+    always sets exactly the declared length; padding entries never occur in a mutating operation. *)
+Theorem C12_only_targets_declared_length H content pc :
+  wf_piece content pc -> cr H content pc -> w_segs pc <> [] -> (forall s, w_segs pc = [s] -> ps_len s <> 0) ->
+  good content pc (solve_prog H pc).
+Proof. exact (solve_prog_good H content pc). Qed.
+
+(** Distinct torrents never share an export file: their subtrees are disjoint. *)
+Theorem C12_subtrees_disjoint export ih1 ih2 p :
+  Forall (fun x => x < 256) ih1 -> Forall (fun x => x < 256) ih2 ->
+  starts_with (export ++ [hexdigest ih1]) p = true -> starts_with (export ++ [hexdigest ih2]) p = true -> ih1 = ih2.
+Proof. exact (subtrees_disjoint export ih1 ih2 p). Qed.
+
+(** After [set_len declared] the file has exactly the declared length, and a write inside the
+    declared length keeps it. *)
+Theorem C12_resize_length b n : length (resize b n) = n.
+Proof. unfold resize. rewrite app_length, firstn_length, repeat_length. lia. Qed.
+
+Print Assumptions C12_single_file_location.
+Print Assumptions C12_multi_file_location.
+Print Assumptions C12_dir_name_length.
+Print Assumptions C12_only_targets_declared_length.
+Print Assumptions C12_subtrees_disjoint.
+Print Assumptions C12_resize_length.
